@@ -1138,6 +1138,9 @@ class n0dict(n0dict_):
             if node_index == "new()":
                 parent_node, node_name_index, cur_value, xpath_found_str, \
                     _not_found_xpath_list = n0dict._find(self, xpath_found_str, self, return_lists)
+                if isinstance(parent_node, (list, tuple)) and isinstance(node_name_index, str) \
+                and node_name_index.startswith('[') and node_name_index.endswith(']'):
+                    node_name_index = n0eval(node_name_index[1:-1])
                 if not isinstance(parent_node[node_name_index], (list, tuple)):
                     parent_node[node_name_index] = n0list([parent_node[node_name_index]])
                 return parent_node[node_name_index], None, None, xpath_found_str, ["[new()]"] + xpath_list[1:]
